@@ -11,12 +11,15 @@ META = {
     'evaluations': 'requests',
     'rule': 'exhaustive: every (route, method) of the routing table of the '
             'working tree (plus undefined methods) x 9 caller classes under '
-            'default policy, then for every documented rule R: R:="@" with a '
+            'default policy at 1.39, the same operations in the request '
+            'formats of 21 older microversions x 5 caller classes, then for '
+            'every documented rule R: R:="@" with a '
             'role-less caller and R:="!" with admin, each against all '
             'operations; every probe runs on a restored snapshot, the dump '
             'and the SQL statement stream around it are compared; distinct = '
             '(operation, caller class, policy variant)',
     'floors': {'denied_probes': 100, 'allowed_probes': 50,
+               'older_version_probes': 500,
                'keystone_pipeline_probes': 100,
                'override_probes': 500, 'unauthenticated_probes': 30},
     'assumptions': ['authorisation decided on the noauth2 + '
@@ -51,6 +54,11 @@ CALLERS = [
     ('revoked-service', 'u8:svcproj', None, {}),
 ]
 METHODS = ['GET', 'PUT', 'POST', 'DELETE', 'PATCH', 'HEAD']
+# every microversion at which some request format or handler changes
+OLD_VERSIONS = [0, 1, 2, 4, 6, 7, 8, 11, 12, 13, 14, 18, 19, 27, 28, 29, 30,
+                33, 36, 37, 38]
+VERSION_CALLERS = [c for c in CALLERS if c[0] in (
+    'no-roles', 'reader-own', 'member-own', 'admin', 'service')]
 
 
 def expected_default(op, caller):
@@ -227,6 +235,38 @@ def run_shard(spec, res):
                                     tail, resp.status),
                                 '%s: answered %d %s' % (
                                     what, resp.status, resp.brief()), wit)
+            # the same operations in the request formats of older
+            # microversions (handlers are implemented per version band:
+            # every band must authorise on its own)
+            for op in oplist:
+                for n in OLD_VERSIONS:
+                    req = world.at_version(op, ops[op], n)
+                    if req is None:
+                        continue
+                    for caller in VERSION_CALLERS:
+                        want = expected_default(op, caller)
+                        r, resp, after, stmts = probe(req, caller)
+                        res.count('requests')
+                        res.count('older_version_probes')
+                        res.seen('%s %s' % op, caller[0], 'v1.%d' % n)
+                        wit = {'request': r.brief(),
+                               'response': resp.brief(),
+                               'caller': caller[0]}
+                        what = '%s %s at 1.%d as %s' % (op[0], op[1], n,
+                                                        caller[0])
+                        tail = '%s %s|%s|1.%d' % (op[0], op[1], caller[0], n)
+                        if want == 'deny':
+                            res.count('denied_probes')
+                            _judge_denied(res, tail, what, resp, d0, after,
+                                          stmts, wit)
+                        elif not 200 <= resp.status < 300:
+                            res.violation(
+                                'C16|authorised-caller-refused|%s|%d' % (
+                                    tail, resp.status),
+                                '%s: answered %d %s' % (
+                                    what, resp.status, resp.brief()), wit)
+                        else:
+                            res.count('allowed_probes')
             # undefined methods / HEAD, and the version document
             for route in sorted(phandler.ROUTE_DECLARATIONS):
                 if route in ('', '/'):
